@@ -276,6 +276,8 @@ def args_dtype(rng, lattice):
         zero_rows = ~P.any(axis=1)
         if np.any(on_face[~zero_rows]):
             continue
+        if len(fr) and np.any(fr.max(axis=0) - fr.min(axis=0) > 12.0):
+            continue            # (integer points on a cell with a very short vector span hundreds of cells: the image box explodes)
         break
     else:
         return None
@@ -411,15 +413,17 @@ c = {c}; r = {r}
 lg = g.get_localgrid(c, r)    # (an exception here is the failure)
 P = np.asarray(g.points, dtype=float).reshape(len(w), -1); d = P.shape[1]
 a = np.asarray(rv, dtype=float).reshape(-1, d)
-# exact integer arithmetic on the float inputs (floats are dyadic rationals)
-vals = list(P.ravel()) + list(a.ravel()) + list(np.atleast_1d(np.asarray(c, dtype=float))) + [float(r)]
-rat = [float(v).as_integer_ratio() for v in vals]; L = max(q for _, q in rat); Z = [p * (L // q) for p, q in rat]
-n, k = len(P), len(a); Pi = [Z[i*d:(i+1)*d] for i in range(n)]; Ai = [Z[n*d+t*d:n*d+(t+1)*d] for t in range(k)]
-Ci = Z[n*d+k*d:n*d+k*d+d]; R2 = Z[-1] ** 2
-want = {want!r}      # (parent index, integer translation j): |x_i + j.a - c| <= r, enumerated exactly by the checker
-for i, j in want:
-    assert sum((Pi[i][m] + sum(j[t] * Ai[t][m] for t in range(k)) - Ci[m]) ** 2 for m in range(d)) <= R2
+n, k = len(P), len(a)
 b = np.linalg.pinv(a).T
+c_ = np.atleast_1d(np.asarray(c, dtype=float)); r_ = float(r)
+want = []       # (parent index, integer translation j) with |x_i + j.a - c| <= r, by direct enumeration (the radius is kept off every distance)
+for i in range(len(P)):
+    mid = np.rint(b @ (c_ - P[i])).astype(int) if k else np.zeros(0, dtype=int)
+    R = [int(np.ceil(np.linalg.norm(b[t]) * r_)) + 2 for t in range(k)]
+    for j in itertools.product(*[range(int(mid[t]) - R[t], int(mid[t]) + R[t] + 1) for t in range(k)]):
+        if np.linalg.norm(P[i] + (np.array(j) @ a if k else 0) - c_) <= r_:
+            want.append((i, tuple(int(v) for v in j)))
+want.sort()      # the checker found {nwant} pair(s): {wshort!r}
 L_ = np.asarray(lg.points, dtype=float).reshape(len(lg.indices), d)
 got = sorted((int(i), tuple(int(v) for v in np.rint(b @ (L_[t] - P[i])))) for t, i in enumerate(lg.indices))
 amb = {amb!r}        # pairs whose distance equals the radius up to rounding: either answer is accepted
@@ -435,7 +439,13 @@ def _pairs(P, lg, a, d):
     return sorted((int(i), tuple(-t for t in j)) for i, j in zip(lg.indices, ilc)), ok
 
 
-def oracle_r3(ctx, budget, M, base_args, lattice):
+def oracle_r3(ctx, budget, M, base_args, lattice, G=None):
+    if G is None:
+        from .c11_r4 import Guard
+        G = Guard(ctx)
+        own_guard = True
+    else:
+        own_guard = False
     PG = M["periodicgrid"].PeriodicGrid
     LG = M["basegrid"].LocalGrid
     PGW = M["periodicgrid"].PeriodicGridWarning
@@ -461,12 +471,19 @@ def oracle_r3(ctx, budget, M, base_args, lattice):
         P = np.asarray(g.points, dtype=float).reshape(-1, d)
         cobj = (float(c[0]) if oned else c) if cobj is None else cobj
         robj = r if robj is None else robj
-        snippet = R3_SNIP.format(pre=pre, c=_descr(cobj), r=_descr(robj), want=want, amb=amb, **base_snip(args))
+        snippet = R3_SNIP.format(pre=pre, c=_descr(cobj), r=_descr(robj), nwant=len(want), wshort=want[:6], amb=amb, **base_snip(args))
         wit = dict(base_snip(args), center=np.asarray(c).tolist(), radius=float(r), expected=want[:40], reassigned=pre)
         try:
             with warnings.catch_warnings():
                 warnings.simplefilter("ignore")
+                c_keep = np.array(cobj, copy=True)
                 lg = g.get_localgrid(cobj, robj)
+            if not np.array_equal(c_keep, np.asarray(cobj)):
+                ctx.fail("oracle", "periodicgrid.get_localgrid:caller-array", f"{what}: get_localgrid changed the caller's centre array from {c_keep.tolist()} to {np.asarray(cobj).tolist()}",
+                         witness=wit, snippet=R3_SNIP.format(pre=pre, c="c_", r=_descr(robj), nwant=0, wshort=[], amb=[], **base_snip(args)).split("lg = g.get_localgrid")[0].replace("c = c_;", f"c_ = {_descr(c_keep)}; c0_ = c_.copy();")
+                         + f"g.get_localgrid(c_, r)\nassert np.array_equal(c_, c0_), 'the centre array of the caller was changed'\n")
+                if isinstance(cobj, np.ndarray) and cobj.flags.writeable:
+                    cobj[...] = c_keep
         except Exception as e:  # noqa: BLE001
             ctx.fail("oracle", f"periodicgrid.get_localgrid:{'empty' if not want else 'raises'}:{key}",
                      f"{what}: get_localgrid(center={np.asarray(c).tolist()}, radius={r!r}) raised {type(e).__name__}: {str(e)[:80]}; "
@@ -488,233 +505,238 @@ def oracle_r3(ctx, budget, M, base_args, lattice):
     # ---- (1) exact lattices: faces / ulp points, zero and denormal radii, radius = lattice length, far centres,
     #          setter then query, handed-out local grid modified by the caller ---------------------------------
     for _ in range(30 * mult):
-        args = args_faces(rng)
-        d, oned, K, lens = args["d"], args["oned"], args["k"], args["lens"]
-        orig = np.array(args["points"], copy=True)
-        try:
-            g, pgw, _ = build(args)
-        except Exception as e:  # noqa: BLE001
-            ctx.fail("oracle", "periodicgrid.__init__:raises:faces", f"PeriodicGrid on an exact lattice {lens} raised {type(e).__name__}: {str(e)[:90]}",
-                     witness=base_snip(args))
-            continue
-        a = np.asarray(g.realvecs, dtype=float).reshape(-1, d)
-        P = np.asarray(g.points, dtype=float).reshape(-1, d)
-        O = np.asarray(orig, dtype=float).reshape(-1, d)
-        if not np.array_equal(orig, args["points"]):
-            ctx.fail("oracle", "periodicgrid.__init__:caller-array", "the constructor modified the caller's points array (exact lattice)", witness=base_snip(args))
-        # wrapping, exactly (few-bit dyadic points: no rounding anywhere)
-        if args["fewbits"]:
-            fr = P[:, :K] / np.array(lens)
-            sh = (P - O)[:, :K] / np.array(lens)
-            okw = np.array_equal(P[:, K:], O[:, K:]) and np.array_equal(sh, np.rint(sh))
-            if args["wrap"]:
-                okw = okw and bool(np.all(fr >= 0) and np.all(fr < 1))
-            else:
-                okw = okw and np.array_equal(P, O)
-            if not okw:
-                ctx.fail("oracle", "periodicgrid.__init__:wrap:exact",
-                         f"exact lattice {lens}, wrap={args['wrap']}: stored points {P.tolist()} for given points {O.tolist()} "
-                         "(expected: fractional coordinates in [0, 1) by integer lattice translations / unchanged)", witness=base_snip(args))
-            iv = np.asarray(g.frac_intvls, dtype=float).reshape(K, 2)
-            if not (np.array_equal(iv[:, 0], fr.min(axis=0)) and np.array_equal(iv[:, 1], fr.max(axis=0))):
-                ctx.fail("oracle", "periodicgrid.__init__:frac-intvls:exact", f"frac_intvls {iv.tolist()} are not the min/max fractional coordinates {fr.tolist()}",
+        with G("periodicgrid.get_localgrid:exact", "exact lattices"):
+            args = args_faces(rng)
+            d, oned, K, lens = args["d"], args["oned"], args["k"], args["lens"]
+            orig = np.array(args["points"], copy=True)
+            try:
+                g, pgw, _ = build(args)
+            except Exception as e:  # noqa: BLE001
+                ctx.fail("oracle", "periodicgrid.__init__:raises:faces", f"PeriodicGrid on an exact lattice {lens} raised {type(e).__name__}: {str(e)[:90]}",
                          witness=base_snip(args))
-        pre = ""
-        hist = rng.choice(["plain", "plain", "setter", "query-setter", "weights-setter"])
-        if hist in ("setter", "query-setter"):
-            if hist == "query-setter":
-                g.get_localgrid(float(P[0, 0]) if oned else P[0], 0.5)
-                pre = f"g.get_localgrid({_descr(float(P[0, 0]) if oned else P[0])}, 0.5); "
-            newP = P.copy()
-            newP[:, :K] += np.array([[rng.choice([-3, -1, 0, 1, 2]) for _ in range(K)] for _ in range(len(P))]) * np.array(lens)
-            if len({tuple(p) for p in newP}) == len(newP):
-                new = newP[:, 0] if oned else newP
-                g.points = new
-                pre += f"g.points = {_descr(new)}"
-                P = newP
-        elif hist == "weights-setter":
-            g.get_localgrid(float(P[0, 0]) if oned else P[0], 0.5)
-            neww = np.array([rng.choice([0.25, 3.0, -1.0]) + i for i in range(len(P))])
-            g.weights = neww
-            pre = f"g.get_localgrid({_descr(float(P[0, 0]) if oned else P[0])}, 0.5); g.weights = {_descr(neww)}"
-        for qi in range(2):
-            i0, ax = rng.randrange(len(P)), rng.randrange(K)
-            far = rng.choice([0, 0, 0, 2 ** 10, 2 ** 20, 2 ** 30, 2 ** 33])
-            t0 = [rng.randint(-1, 1) + rng.choice([-1, 1]) * far for _ in range(K)]
-            rk = rng.choice(["zero", "negzero", "denormal", "tiny", "lattice", "lattice2", "dyadic", "dyadic"])
-            r = {"zero": 0.0, "negzero": -0.0, "denormal": 5e-324, "tiny": 1e-300, "lattice": abs(lens[ax]), "lattice2": 2 * abs(lens[ax]),
-                 "dyadic": rng.choice([0.125, 0.25, 0.5, 1.0, 1.5])}[rk]
-            if K == 3:
-                r = min(r, 1.0)
-            on_sphere = rk in ("lattice", "lattice2", "dyadic") and rng.random() < 0.8
-            # the centre in exact arithmetic: image (i0, t0) of a grid point, moved by exactly r along a lattice axis
-            cx = [F(float(P[i0][m])) + (t0[m] * F(lens[m]) if m < K else 0) for m in range(d)]
-            if on_sphere:
-                cx[ax] += rng.choice([-1, 1]) * F(r)      # the image (i0, t0) is at distance exactly r
-            c = np.array([float(v) for v in cx])
-            if any(F(float(v)) != v for v in cx):          # (not representable: an ulp-point and a far centre)
                 continue
-            want, amb = exact_images(P, a, c, r, bandbits=None if args["fewbits"] else 44)
-            robj, rkk = radius_obj(rng, r) if r > 0 else (r, "float")
-            ctx.count(["r3-exact", d, K, lens, rk, far, hist], nontrivial=True, tag=f"oracle:r3:exact:{rk}" + (":far" if far else ""))
-            ctx.tagc("oracle:r3:exact:hist:" + hist)
-            lg = check_query(args, g, c, r, want, amb, "exact" + (":on-sphere" if on_sphere else "") + (":far" if far else ""),
-                             f"exact lattice {lens} (dim {d}), radius class {rk}, centre {abs(far)} cells away, history {hist}", pre=pre, robj=robj)
-            # (class 9) the local grid handed out is the caller's: scribbling on it must not change the next answer
-            if lg is not None and qi == 0 and len(lg.indices):
-                keepP, keepW, keepI = np.array(lg.points), np.array(lg.weights), np.array(lg.indices)
-                gP, gW = np.array(g.points), np.array(g.weights)
-                for arr in (lg.points, lg.weights, lg.indices):
-                    try:
-                        arr[...] = 7
-                    except (ValueError, TypeError):
-                        pass
-                ok2 = np.array_equal(gP, np.asarray(g.points)) and np.array_equal(gW, np.asarray(g.weights))
-                with warnings.catch_warnings():
-                    warnings.simplefilter("ignore")
-                    lg2 = g.get_localgrid(float(c[0]) if oned else c, robj)
-                ok2 = ok2 and np.array_equal(keepP, lg2.points) and np.array_equal(keepW, lg2.weights) and np.array_equal(keepI, lg2.indices)
-                ctx.tagc("oracle:r3:handed-out")
-                if not ok2:
-                    ctx.fail("oracle", "periodicgrid.get_localgrid:handed-out",
-                             "after the caller overwrote the arrays of the returned LocalGrid in place, the parent grid changed or the same query "
-                             "answers differently", witness=dict(base_snip(args), center=c.tolist(), radius=r),
-                             snippet=("import warnings; warnings.filterwarnings('ignore')\nimport numpy as np\nfrom grid.periodicgrid import PeriodicGrid\n"
-                                      f"g = PeriodicGrid({base_snip(args)['pts']}, {base_snip(args)['w']}, {base_snip(args)['rv']}, wrap={args['wrap']})\n"
-                                      f"{pre}\nc = {_descr(float(c[0]) if oned else c)}; r = {_descr(robj)}\n"
-                                      "a = g.get_localgrid(c, r); P, W, I = a.points.copy(), a.weights.copy(), a.indices.copy(); gp, gw = g.points.copy(), g.weights.copy()\n"
-                                      "a.points[...] = 7; a.weights[...] = 7; a.indices[...] = 7\nb = g.get_localgrid(c, r)\n"
-                                      "assert np.array_equal(gp, g.points) and np.array_equal(gw, g.weights), 'parent grid changed'\n"
-                                      "assert np.array_equal(P, b.points) and np.array_equal(W, b.weights) and np.array_equal(I, b.indices), 'second answer differs'\n"))
-                    break       # (the object may be damaged now: no further queries on it)
+            a = np.asarray(g.realvecs, dtype=float).reshape(-1, d)
+            P = np.asarray(g.points, dtype=float).reshape(-1, d)
+            O = np.asarray(orig, dtype=float).reshape(-1, d)
+            if not np.array_equal(orig, args["points"]):
+                ctx.fail("oracle", "periodicgrid.__init__:caller-array", "the constructor modified the caller's points array (exact lattice)", witness=base_snip(args))
+            # wrapping, exactly (few-bit dyadic points: no rounding anywhere)
+            if args["fewbits"]:
+                fr = P[:, :K] / np.array(lens)
+                sh = (P - O)[:, :K] / np.array(lens)
+                okw = np.array_equal(P[:, K:], O[:, K:]) and np.array_equal(sh, np.rint(sh))
+                if args["wrap"]:
+                    okw = okw and bool(np.all(fr >= 0) and np.all(fr < 1))
+                else:
+                    okw = okw and np.array_equal(P, O)
+                if not okw:
+                    ctx.fail("oracle", "periodicgrid.__init__:wrap:exact",
+                             f"exact lattice {lens}, wrap={args['wrap']}: stored points {P.tolist()} for given points {O.tolist()} "
+                             "(expected: fractional coordinates in [0, 1) by integer lattice translations / unchanged)", witness=base_snip(args))
+                iv = np.asarray(g.frac_intvls, dtype=float).reshape(K, 2)
+                if not (np.array_equal(iv[:, 0], fr.min(axis=0)) and np.array_equal(iv[:, 1], fr.max(axis=0))):
+                    ctx.fail("oracle", "periodicgrid.__init__:frac-intvls:exact", f"frac_intvls {iv.tolist()} are not the min/max fractional coordinates {fr.tolist()}",
+                             witness=base_snip(args))
+            pre = ""
+            hist = rng.choice(["plain", "plain", "setter", "query-setter", "weights-setter"])
+            if hist in ("setter", "query-setter"):
+                if hist == "query-setter":
+                    g.get_localgrid(float(P[0, 0]) if oned else P[0].copy(), 0.5)
+                    pre = f"g.get_localgrid({_descr(float(P[0, 0]) if oned else P[0])}, 0.5); "
+                newP = P.copy()
+                newP[:, :K] += np.array([[rng.choice([-3, -1, 0, 1, 2]) for _ in range(K)] for _ in range(len(P))]) * np.array(lens)
+                if len({tuple(p) for p in newP}) == len(newP):
+                    new = newP[:, 0] if oned else newP
+                    g.points = new
+                    pre += f"g.points = {_descr(new)}"
+                    P = newP
+            elif hist == "weights-setter":
+                g.get_localgrid(float(P[0, 0]) if oned else P[0].copy(), 0.5)
+                neww = np.array([rng.choice([0.25, 3.0, -1.0]) + i for i in range(len(P))])
+                g.weights = neww
+                pre = f"g.get_localgrid({_descr(float(P[0, 0]) if oned else P[0])}, 0.5); g.weights = {_descr(neww)}"
+            for qi in range(2):
+                i0, ax = rng.randrange(len(P)), rng.randrange(K)
+                far = rng.choice([0, 0, 0, 2 ** 10, 2 ** 20, 2 ** 30, 2 ** 33])
+                t0 = [rng.randint(-1, 1) + rng.choice([-1, 1]) * far for _ in range(K)]
+                rk = rng.choice(["zero", "negzero", "denormal", "tiny", "lattice", "lattice2", "dyadic", "dyadic"])
+                r = {"zero": 0.0, "negzero": -0.0, "denormal": 5e-324, "tiny": 1e-300, "lattice": abs(lens[ax]), "lattice2": 2 * abs(lens[ax]),
+                     "dyadic": rng.choice([0.125, 0.25, 0.5, 1.0, 1.5])}[rk]
+                if K == 3:
+                    r = min(r, 1.0)
+                on_sphere = rk in ("lattice", "lattice2", "dyadic") and rng.random() < 0.8
+                # the centre in exact arithmetic: image (i0, t0) of a grid point, moved by exactly r along a lattice axis
+                cx = [F(float(P[i0][m])) + (t0[m] * F(lens[m]) if m < K else 0) for m in range(d)]
+                if on_sphere:
+                    cx[ax] += rng.choice([-1, 1]) * F(r)      # the image (i0, t0) is at distance exactly r
+                c = np.array([float(v) for v in cx])
+                if any(F(float(v)) != v for v in cx):          # (not representable: an ulp-point and a far centre)
+                    continue
+                want, amb = exact_images(P, a, c, r, bandbits=None if args["fewbits"] else 44)
+                robj, rkk = radius_obj(rng, r) if r > 0 else (r, "float")
+                ctx.count(["r3-exact", d, K, lens, rk, far, hist], nontrivial=True, tag=f"oracle:r3:exact:{rk}" + (":far" if far else ""))
+                ctx.tagc("oracle:r3:exact:hist:" + hist)
+                lg = check_query(args, g, c, r, want, amb, "exact" + (":on-sphere" if on_sphere else "") + (":far" if far else ""),
+                                 f"exact lattice {lens} (dim {d}), radius class {rk}, centre {abs(far)} cells away, history {hist}", pre=pre, robj=robj)
+                # (class 9) the local grid handed out is the caller's: scribbling on it must not change the next answer
+                if lg is not None and qi == 0 and len(lg.indices):
+                    keepP, keepW, keepI = np.array(lg.points), np.array(lg.weights), np.array(lg.indices)
+                    gP, gW = np.array(g.points), np.array(g.weights)
+                    for arr in (lg.points, lg.weights, lg.indices):
+                        try:
+                            arr[...] = 7
+                        except (ValueError, TypeError):
+                            pass
+                    ok2 = np.array_equal(gP, np.asarray(g.points)) and np.array_equal(gW, np.asarray(g.weights))
+                    with warnings.catch_warnings():
+                        warnings.simplefilter("ignore")
+                        lg2 = g.get_localgrid(float(c[0]) if oned else c, robj)
+                    ok2 = ok2 and np.array_equal(keepP, lg2.points) and np.array_equal(keepW, lg2.weights) and np.array_equal(keepI, lg2.indices)
+                    ctx.tagc("oracle:r3:handed-out")
+                    if not ok2:
+                        ctx.fail("oracle", "periodicgrid.get_localgrid:handed-out",
+                                 "after the caller overwrote the arrays of the returned LocalGrid in place, the parent grid changed or the same query "
+                                 "answers differently", witness=dict(base_snip(args), center=c.tolist(), radius=r),
+                                 snippet=("import warnings; warnings.filterwarnings('ignore')\nimport numpy as np\nfrom grid.periodicgrid import PeriodicGrid\n"
+                                          f"g = PeriodicGrid({base_snip(args)['pts']}, {base_snip(args)['w']}, {base_snip(args)['rv']}, wrap={args['wrap']})\n"
+                                          f"{pre}\nc = {_descr(float(c[0]) if oned else c)}; r = {_descr(robj)}\n"
+                                          "a = g.get_localgrid(c, r); P, W, I = a.points.copy(), a.weights.copy(), a.indices.copy(); gp, gw = g.points.copy(), g.weights.copy()\n"
+                                          "a.points[...] = 7; a.weights[...] = 7; a.indices[...] = 7\nb = g.get_localgrid(c, r)\n"
+                                          "assert np.array_equal(gp, g.points) and np.array_equal(gw, g.weights), 'parent grid changed'\n"
+                                          "assert np.array_equal(P, b.points) and np.array_equal(W, b.weights) and np.array_equal(I, b.indices), 'second answer differs'\n"))
+                        break       # (the object may be damaged now: no further queries on it)
 
     # ---- (2) the 1.1 threshold of the constructor's warning ---------------------------------------------------
     for _ in range(40 * mult):
-        args = args_threshold(rng)
-        try:
-            g, pgw, rec = build(args)
-        except Exception as e:  # noqa: BLE001
-            ctx.fail("oracle", "periodicgrid.__init__:raises:threshold", f"PeriodicGrid raised {type(e).__name__}: {str(e)[:90]}", witness=base_snip(args))
-            continue
-        ctx.count(["r3-threshold", args["r3"], args["wrap"], args["d"], args["k"]], nontrivial=True, tag="oracle:r3:" + args["r3"])
-        snippet = ("import warnings\nimport numpy as np\nfrom grid.periodicgrid import PeriodicGrid, PeriodicGridWarning\n"
-                   "with warnings.catch_warnings(record=True) as rec:\n    warnings.simplefilter('always')\n"
-                   f"    g = PeriodicGrid({base_snip(args)['pts']}, {base_snip(args)['w']}, {base_snip(args)['rv']}, wrap={args['wrap']})\n"
-                   "n = sum(issubclass(x.category, PeriodicGridWarning) for x in rec)\n"
-                   f"assert n == {int(args['expect_warn'])}, f'{{n}} PeriodicGridWarning(s); the fractional coordinates span {{(g.frac_intvls[:, 1] - g.frac_intvls[:, 0]).tolist()}}'\n"
-                   "assert all(x.filename == __file__ for x in rec if issubclass(x.category, PeriodicGridWarning)) if '__file__' in globals() else True\n")
-        if len(pgw) != int(args["expect_warn"]) or len(rec) != len(pgw):
-            ctx.fail("oracle", "periodicgrid.__init__:warning",
-                     f"class {args['r3']}, wrap={args['wrap']}: {len(pgw)} PeriodicGridWarning(s) ({len(rec)} warnings in all), expected {int(args['expect_warn'])} "
-                     f"(documented: warn iff the fractional coordinates span more than 1.1 and wrap is off); spans "
-                     f"{(np.asarray(g.frac_intvls)[:, 1] - np.asarray(g.frac_intvls)[:, 0]).tolist()}", witness=base_snip(args), snippet=snippet)
-        elif pgw and pgw[0].filename != __file__:
-            ctx.fail("oracle", "periodicgrid.__init__:warning:stacklevel",
-                     f"the PeriodicGridWarning is attributed to {pgw[0].filename}, not to the caller of the constructor (stacklevel=2)", witness=base_snip(args), snippet=snippet)
-        # the local grid is right on both sides of the threshold (wide grids: many translations, same answer)
-        d, oned = args["d"], args["oned"]
-        a = np.asarray(g.realvecs, dtype=float).reshape(-1, d)
-        P = np.asarray(g.points, dtype=float).reshape(-1, d)
-        c = P[rng.randrange(len(P))] + np.array([rng.choice([0.0, 0.125, -0.375]) for _ in range(d)])
-        r = rng.choice([0.25, 0.5, 1.0])
-        want, amb = exact_images(P, a, c, r, bandbits=44)
-        check_query(args, g, c, r, want, amb, "threshold", f"class {args['r3']} (exact lattice {args['lens']})")
+        with G("periodicgrid.__init__:warning", "the 1.1 threshold of the warning"):
+            args = args_threshold(rng)
+            try:
+                g, pgw, rec = build(args)
+            except Exception as e:  # noqa: BLE001
+                ctx.fail("oracle", "periodicgrid.__init__:raises:threshold", f"PeriodicGrid raised {type(e).__name__}: {str(e)[:90]}", witness=base_snip(args))
+                continue
+            ctx.count(["r3-threshold", args["r3"], args["wrap"], args["d"], args["k"]], nontrivial=True, tag="oracle:r3:" + args["r3"])
+            snippet = ("import warnings\nimport numpy as np\nfrom grid.periodicgrid import PeriodicGrid, PeriodicGridWarning\n"
+                       "with warnings.catch_warnings(record=True) as rec:\n    warnings.simplefilter('always')\n"
+                       f"    g = PeriodicGrid({base_snip(args)['pts']}, {base_snip(args)['w']}, {base_snip(args)['rv']}, wrap={args['wrap']})\n"
+                       "n = sum(issubclass(x.category, PeriodicGridWarning) for x in rec)\n"
+                       f"assert n == {int(args['expect_warn'])}, f'{{n}} PeriodicGridWarning(s); the fractional coordinates span {{(g.frac_intvls[:, 1] - g.frac_intvls[:, 0]).tolist()}}'\n"
+                       "assert all(x.filename == __file__ for x in rec if issubclass(x.category, PeriodicGridWarning)) if '__file__' in globals() else True\n")
+            if len(pgw) != int(args["expect_warn"]) or len(rec) != len(pgw):
+                ctx.fail("oracle", "periodicgrid.__init__:warning",
+                         f"class {args['r3']}, wrap={args['wrap']}: {len(pgw)} PeriodicGridWarning(s) ({len(rec)} warnings in all), expected {int(args['expect_warn'])} "
+                         f"(documented: warn iff the fractional coordinates span more than 1.1 and wrap is off); spans "
+                         f"{(np.asarray(g.frac_intvls)[:, 1] - np.asarray(g.frac_intvls)[:, 0]).tolist()}", witness=base_snip(args), snippet=snippet)
+            elif pgw and pgw[0].filename != __file__:
+                ctx.fail("oracle", "periodicgrid.__init__:warning:stacklevel",
+                         f"the PeriodicGridWarning is attributed to {pgw[0].filename}, not to the caller of the constructor (stacklevel=2)", witness=base_snip(args), snippet=snippet)
+            # the local grid is right on both sides of the threshold (wide grids: many translations, same answer)
+            d, oned = args["d"], args["oned"]
+            a = np.asarray(g.realvecs, dtype=float).reshape(-1, d)
+            P = np.asarray(g.points, dtype=float).reshape(-1, d)
+            c = P[rng.randrange(len(P))] + np.array([rng.choice([0.0, 0.125, -0.375]) for _ in range(d)])
+            r = rng.choice([0.25, 0.5, 1.0])
+            want, amb = exact_images(P, a, c, r, bandbits=44)
+            check_query(args, g, c, r, want, amb, "threshold", f"class {args['r3']} (exact lattice {args['lens']})")
 
     # ---- (3) scaled cells, integer / bool points: the general (rounded) reference ------------------------------
     for _ in range(40 * mult):
-        args = args_scaled(rng, base_args) if rng.random() < 0.6 else args_dtype(rng, lattice)
-        if args is None:
-            continue
-        d, oned, k = args["d"], args["oned"], args["k"]
-        try:
-            g, _, _ = build(args)
-        except Exception as e:  # noqa: BLE001
-            ctx.fail("oracle", "periodicgrid.__init__:raises:" + args["r3"].split(":")[0],
-                     f"PeriodicGrid(points {_descr(args['points'])[:80]}, realvecs {_descr(np.asarray(args['realvecs']))[:80]}) raised {type(e).__name__}: {str(e)[:90]}",
-                     witness=base_snip(args))
-            continue
-        a = np.asarray(g.realvecs, dtype=float).reshape(-1, d)
-        P = np.asarray(g.points, dtype=float).reshape(-1, d)
-        scale = float(np.linalg.norm(a, axis=1).min())
-        b = np.linalg.pinv(a).T
-        # duality and spacings relative to the scale of the cell
-        rec_ = np.asarray(g.recivecs, dtype=float).reshape(k, d)
-        sp = np.asarray(g.spacings, dtype=float).reshape(-1)
-        if not np.allclose(rec_ @ a.T, np.eye(k), atol=1e-9) or not np.allclose(sp * np.linalg.norm(rec_, axis=1), 1.0, rtol=1e-10) or np.any(sp <= 0):
-            ctx.fail("oracle", "periodicgrid.__init__:recivecs:" + args["r3"].split(":")[0],
-                     f"class {args['r3']}: reciprocal vectors / spacings are not dual to the lattice (b.a^T = {(rec_ @ a.T).tolist()}, spacings {sp.tolist()})",
-                     witness=base_snip(args))
-        if args["wrap"]:
-            fr = P @ b.T
-            if np.any(fr < -1e-9) or np.any(fr >= 1 + 1e-9):
-                ctx.fail("oracle", "periodicgrid.__init__:wrap:" + args["r3"].split(":")[0],
-                         f"class {args['r3']}: wrapped points have fractional coordinates {fr.tolist()}", witness=base_snip(args))
-        for _q in range(2):
-            x = P[rng.randrange(len(P))]
-            c = x + np.array([rng.uniform(-0.4, 0.4) for _ in range(d)]) * scale
-            if rng.random() < 0.3:
-                c = x + np.array([rng.choice([-2, -1, 1, 3]) for _ in range(k)]) @ a + np.array([rng.uniform(-0.2, 0.2) for _ in range(d)]) * scale
-            r = rng.choice([0.05, 0.3, 0.8, 1.3, 1.7]) * scale
-            r = min(r, 10.0 / float(np.linalg.norm(b, axis=1).max()))
-            want, r = brute_np(P, a, c, r, scale=scale)
-            ctx.count(["r3", args["r3"], d, k, args["wrap"]], nontrivial=True, tag="oracle:r3:" + args["r3"])
-            check_query(args, g, c, r, want, [], args["r3"].split(":")[0], f"class {args['r3']}")
+        with G("periodicgrid.get_localgrid:scaled-dtype", "scaled cells / integer and bool points"):
+            args = args_scaled(rng, base_args) if rng.random() < 0.6 else args_dtype(rng, lattice)
+            if args is None:
+                continue
+            d, oned, k = args["d"], args["oned"], args["k"]
+            try:
+                g, _, _ = build(args)
+            except Exception as e:  # noqa: BLE001
+                ctx.fail("oracle", "periodicgrid.__init__:raises:" + args["r3"].split(":")[0],
+                         f"PeriodicGrid(points {_descr(args['points'])[:80]}, realvecs {_descr(np.asarray(args['realvecs']))[:80]}) raised {type(e).__name__}: {str(e)[:90]}",
+                         witness=base_snip(args))
+                continue
+            a = np.asarray(g.realvecs, dtype=float).reshape(-1, d)
+            P = np.asarray(g.points, dtype=float).reshape(-1, d)
+            scale = float(np.linalg.norm(a, axis=1).min())
+            b = np.linalg.pinv(a).T
+            # duality and spacings relative to the scale of the cell
+            rec_ = np.asarray(g.recivecs, dtype=float).reshape(k, d)
+            sp = np.asarray(g.spacings, dtype=float).reshape(-1)
+            if not np.allclose(rec_ @ a.T, np.eye(k), atol=1e-9) or not np.allclose(sp * np.linalg.norm(rec_, axis=1), 1.0, rtol=1e-10) or np.any(sp <= 0):
+                ctx.fail("oracle", "periodicgrid.__init__:recivecs:" + args["r3"].split(":")[0],
+                         f"class {args['r3']}: reciprocal vectors / spacings are not dual to the lattice (b.a^T = {(rec_ @ a.T).tolist()}, spacings {sp.tolist()})",
+                         witness=base_snip(args))
+            if args["wrap"]:
+                fr = P @ b.T
+                if np.any(fr < -1e-9) or np.any(fr >= 1 + 1e-9):
+                    ctx.fail("oracle", "periodicgrid.__init__:wrap:" + args["r3"].split(":")[0],
+                             f"class {args['r3']}: wrapped points have fractional coordinates {fr.tolist()}", witness=base_snip(args))
+            for _q in range(2):
+                x = P[rng.randrange(len(P))]
+                c = x + np.array([rng.uniform(-0.4, 0.4) for _ in range(d)]) * scale
+                if rng.random() < 0.3:
+                    c = x + np.array([rng.choice([-2, -1, 1, 3]) for _ in range(k)]) @ a + np.array([rng.uniform(-0.2, 0.2) for _ in range(d)]) * scale
+                r = rng.choice([0.05, 0.3, 0.8, 1.3, 1.7]) * scale
+                r = min(r, 10.0 / float(np.linalg.norm(b, axis=1).max()))
+                want, r = brute_np(P, a, c, r, scale=scale)
+                ctx.count(["r3", args["r3"], d, k, args["wrap"]], nontrivial=True, tag="oracle:r3:" + args["r3"])
+                check_query(args, g, c, r, want, [], args["r3"].split(":")[0], f"class {args['r3']}")
 
     # ---- (4) far centres, lattice-point centres, radius / spacing up to the cap -------------------------------
     nq = 0
     for _ in range(400 * mult):
-        if nq >= 36 * mult:
-            break
-        args = base_args(rng)
-        if args["k"] == 0 or args["rtol"] != 1e-11:
-            continue
-        d, oned, k = args["d"], args["oned"], args["k"]
-        try:
-            g, _, _ = build(args)
-        except Exception:  # noqa: BLE001 (reported by the main oracle)
-            continue
-        a = np.asarray(g.realvecs, dtype=float).reshape(-1, d)
-        sq = special_query(rng, g, a, d, oned, thorough=ctx.thorough)
-        if sq is None:
-            continue
-        c, r, want, how, margin = sq
-        nq += 1
-        ctx.count(["r3-query", how, d, k, len(want)], nontrivial=True, tag="oracle:r3:query:" + how)
-        if how == "hugeratio":
-            ctx.tagc("oracle:r3:hugeratio:images", len(want))
-        robj, _ = radius_obj(rng, r)
-        check_query(args, g, c, r, want, [], how, f"query class {how} (dim {d}, {k} lattice vector(s), wrap={args['wrap']}, {len(want)} images)", robj=robj)
+        with G("periodicgrid.get_localgrid:far", "far centres / huge ratios"):
+            if nq >= 36 * mult:
+                break
+            args = base_args(rng)
+            if args["k"] == 0 or args["rtol"] != 1e-11:
+                continue
+            d, oned, k = args["d"], args["oned"], args["k"]
+            try:
+                g, _, _ = build(args)
+            except Exception:  # noqa: BLE001 (reported by the main oracle)
+                continue
+            a = np.asarray(g.realvecs, dtype=float).reshape(-1, d)
+            sq = special_query(rng, g, a, d, oned, thorough=ctx.thorough)
+            if sq is None:
+                continue
+            c, r, want, how, margin = sq
+            nq += 1
+            ctx.count(["r3-query", how, d, k, len(want)], nontrivial=True, tag="oracle:r3:query:" + how)
+            if how == "hugeratio":
+                ctx.tagc("oracle:r3:hugeratio:images", len(want))
+            robj, _ = radius_obj(rng, r)
+            check_query(args, g, c, r, want, [], how, f"query class {how} (dim {d}, {k} lattice vector(s), wrap={args['wrap']}, {len(want)} images)", robj=robj)
 
     # ---- (5) the singularity threshold of the constructor (class 7): sigma_min / sigma_max around eps * max(shape) ---
     eps = float(np.finfo(float).eps)
     for d in (2, 3):
         for fac, accept in ((100.0, True), (1.01, True), (1 / 1.01, False), (1 / 100.0, False)):
-            t = eps * d * fac
-            rv = np.eye(d)
-            rv[d - 1, d - 1] = t
-            pts = np.zeros((1, d))
-            pts[0, 0] = 0.25
-            snippet = ("import numpy as np\nfrom grid.periodicgrid import PeriodicGrid\n"
-                       f"rv = np.eye({d}); rv[-1, -1] = {t!r}      # sigma_min / sigma_max = {fac} * eps * max(shape)\n"
-                       f"pts = np.zeros((1, {d})); pts[0, 0] = 0.25\n"
-                       + ("g = PeriodicGrid(pts, np.ones(1), rv)\nlg = g.get_localgrid(pts[0], 0.0)\nassert list(lg.indices) == [0] and np.array_equal(lg.points, pts)\n" if accept else
-                          "try:\n    PeriodicGrid(pts, np.ones(1), rv)\nexcept ValueError:\n    pass\nelse:\n    raise AssertionError('singular cell vectors accepted')\n"))
-            ctx.tagc("oracle:r3:singular:" + ("accept" if accept else "reject"))
-            try:
-                with warnings.catch_warnings():
-                    warnings.simplefilter("ignore")
-                    g = PG(pts, np.ones(1), rv)
-                    lg = g.get_localgrid(pts[0], 0.0)
-                if not accept:
-                    ctx.fail("oracle", "periodicgrid.__init__:singular", f"cell vectors with sigma_min/sigma_max = {fac:.4g} * eps * max(shape) (documented as singular) "
-                             "were accepted", witness={"realvecs": rv.tolist()}, snippet=snippet)
-                elif list(map(int, lg.indices)) != [0] or not np.array_equal(np.asarray(lg.points), pts):
-                    ctx.fail("oracle", "periodicgrid.get_localgrid:images:near-singular", f"near-singular cell (ratio {fac:.4g} * eps * max(shape)): the point itself "
-                             f"(radius 0, exact data) is not returned: indices {list(lg.indices)}", witness={"realvecs": rv.tolist()}, snippet=snippet)
-            except ValueError as e:
-                if accept:
-                    ctx.fail("oracle", "periodicgrid.__init__:singular", f"cell vectors with sigma_min/sigma_max = {fac:.4g} * eps * max(shape) (non-singular by the "
-                             f"documented criterion) were rejected: {str(e)[:60]}", witness={"realvecs": rv.tolist()}, snippet=snippet)
+            with G("periodicgrid.__init__:singular", "singularity threshold"):
+                t = eps * d * fac
+                rv = np.eye(d)
+                rv[d - 1, d - 1] = t
+                pts = np.zeros((1, d))
+                pts[0, 0] = 0.25
+                snippet = ("import numpy as np\nfrom grid.periodicgrid import PeriodicGrid\n"
+                           f"rv = np.eye({d}); rv[-1, -1] = {t!r}      # sigma_min / sigma_max = {fac} * eps * max(shape)\n"
+                           f"pts = np.zeros((1, {d})); pts[0, 0] = 0.25\n"
+                           + ("g = PeriodicGrid(pts, np.ones(1), rv)\nlg = g.get_localgrid(pts[0], 0.0)\nassert list(lg.indices) == [0] and np.array_equal(lg.points, pts)\n" if accept else
+                              "try:\n    PeriodicGrid(pts, np.ones(1), rv)\nexcept ValueError:\n    pass\nelse:\n    raise AssertionError('singular cell vectors accepted')\n"))
+                ctx.tagc("oracle:r3:singular:" + ("accept" if accept else "reject"))
+                try:
+                    with warnings.catch_warnings():
+                        warnings.simplefilter("ignore")
+                        g = PG(pts, np.ones(1), rv)
+                        lg = g.get_localgrid(pts[0], 0.0)
+                    if not accept:
+                        ctx.fail("oracle", "periodicgrid.__init__:singular", f"cell vectors with sigma_min/sigma_max = {fac:.4g} * eps * max(shape) (documented as singular) "
+                                 "were accepted", witness={"realvecs": rv.tolist()}, snippet=snippet)
+                    elif list(map(int, lg.indices)) != [0] or not np.array_equal(np.asarray(lg.points), pts):
+                        ctx.fail("oracle", "periodicgrid.get_localgrid:images:near-singular", f"near-singular cell (ratio {fac:.4g} * eps * max(shape)): the point itself "
+                                 f"(radius 0, exact data) is not returned: indices {list(lg.indices)}", witness={"realvecs": rv.tolist()}, snippet=snippet)
+                except ValueError as e:
+                    if accept:
+                        ctx.fail("oracle", "periodicgrid.__init__:singular", f"cell vectors with sigma_min/sigma_max = {fac:.4g} * eps * max(shape) (non-singular by the "
+                                 f"documented criterion) were rejected: {str(e)[:60]}", witness={"realvecs": rv.tolist()}, snippet=snippet)
 
     # recorded only (outside the quantifier: more lattice vectors than dimensions): the flat 1-D form does not count them
     try:
@@ -725,3 +747,5 @@ def oracle_r3(ctx, budget, M, base_args, lattice):
                  "1-D realvecs; the points/vectors are then paired elementwise), while the same data as (2,1)/(2,1) arrays is rejected with ValueError")
     except ValueError:
         ctx.info("1-D points with a two-element 1-D realvecs array are rejected (ValueError)")
+    if own_guard:
+        G.finish()
